@@ -248,7 +248,8 @@ func faultClass(backend string, lines []string, faultAt int, kind string, base p
 		return "change"
 	case l == "write term" || l == "sh run":
 		return "retrieval"
-	case l == "write memory" || l == "commit" || l == "show jobs":
+	case l == "write memory" || l == "commit" || l == "show jobs" ||
+		(l == "" && faultAt >= 2 && canonLine(backend, lines[faultAt-2]) == "write memory"):
 		return "save"
 	case l == "echo $?":
 		return "probe"
@@ -283,6 +284,10 @@ func oracle(c CaseIn, o CaseOut, base, baseE plan) verdict {
 		// a device-side failure was injected
 		cls := faultClass(c.Scen.Backend, o.Lines, o.FaultAt, c.FaultKind, base, baseE)
 		pred := "other"
+		if c.FaultKind == "savefail_ok" && cls == "save" {
+			// an error sentence that contains the literal "[OK]": the code looks for the marker only
+			pred = "output_of_save_command_not_inspected_beyond_confirmation"
+		}
 		if c.FaultKind == "errtext" || c.FaultKind == "unexpected" || c.FaultKind == "garbled" {
 			switch cls {
 			case "setup_or_show", "preamble":
@@ -437,6 +442,7 @@ func quickParams() []ScenParams {
 		{Backend: "Linux", Dels: 1, YesNo: true},
 		{Backend: "PAN-OS", Cmds: 3, Pend: 2, HA: "active"},
 		{Backend: "PAN-OS", Cmds: 2, NoCh: true},
+		{Backend: "PAN-OS", Cmds: 2, Vsys: 2, Pend: 1}, // two vsys with changes: two entries in s.changes
 		{Backend: "NSX", Cmds: 3},
 	}
 }
@@ -463,6 +469,10 @@ func randomParams(r *RNG, backend string) ScenParams {
 		p.Cmds = 2 + r.Intn(5)
 		p.Pend = r.Intn(4)
 		p.NoCh = r.Chance(15)
+		p.Vsys = 1 + r.Intn(3)
+		if p.Vsys > 1 && p.Cmds > 4 {
+			p.Cmds = 4
+		}
 		if r.Chance(50) {
 			p.HA = "active"
 		}
@@ -564,8 +574,24 @@ func run(ctx *Ctx) *Result {
 				}
 				cases = append(cases, CaseIn{Scen: s, Tool: "doapprove", Mode: "approve", FaultPos: pos, FaultKind: k})
 			}
-			if s.Backend == "PAN-OS" && strings.Contains(blOut[i].Lines[pos-1], "<show><jobs>") {
-				cases = append(cases, CaseIn{Scen: s, Tool: "doapprove", Mode: "approve", FaultPos: pos, FaultKind: "jobfail"})
+			// at every save / commit step: failures whose text embeds fragments of a good answer
+			if pos >= 1 {
+				l := blOut[i].Lines[pos-1]
+				var extra []string
+				switch {
+				case s.Backend == "PAN-OS" && strings.Contains(l, "<show><jobs>"):
+					extra = []string{"jobfail", "jobfail_success", "errsuccess"}
+				case s.Backend == "PAN-OS" && strings.Contains(l, "type=commit"):
+					extra = []string{"commitmsg", "errsuccess"}
+				case s.Backend == "PAN-OS" && strings.Contains(l, "type=config") && !strings.Contains(l, "action=get"):
+					extra = []string{"errsuccess"}
+				case (s.Backend == "ASA" || s.Backend == "IOS") && (l == "write memory" || (l == "" && pos >= 2 && blOut[i].Lines[pos-2] == "write memory")):
+					extra = []string{"savefail", "savefail_ok"}
+				}
+				for _, k := range extra {
+					cases = append(cases, CaseIn{Scen: s, Tool: "doapprove", Mode: "approve", FaultPos: pos, FaultKind: k})
+					cases = append(cases, CaseIn{Scen: s, Tool: "drc", Mode: "approve", FaultPos: pos, FaultKind: k})
+				}
 			}
 		}
 		// compare mode, drc tool, previous DIFF: a sample of positions
